@@ -135,7 +135,7 @@ class IndexValues(Harness):
     def cases(self, tier):
         out = [{"shares": i, "sym_shares": False} for i in range(len(self.share_sets))]
         out.append({"shares": 1, "sym_shares": False, "subclass": True})
-        out += [{"neg": "duplicate"}, {"neg": "no-shares"}]
+        out += [{"neg": "duplicate"}, {"neg": "no-shares"}, {"shares": 1, "sym_shares": False, "rejected_batch": True}]
         # outstanding shares of a component assigned (public attribute) after the index was set up
         out.append({"shares": 0, "sym_shares": False, "reassign": [250, 100]})
         out.append({"shares": 1, "sym_shares": False, "reassign": [2, 3, 7]})
@@ -182,7 +182,21 @@ class IndexValues(Harness):
             shares = [g.int(f"s{i}", 1, 10 ** 6) for i in range(len(shares))]
             for m, s in zip(comps, shares):
                 m.outstanding_shares = s     # setup() insists on a python int
-        idx.setup({"tickSize": 1, "marketPrice": 100, "markets": [m.name for m in comps]})
+        if case.get("rejected_batch"):
+            # the index starts with the first two components; a list naming an existing component is refused and
+            # leaves the index as it was; then the third one is added
+            idx.setup({"tickSize": 1, "marketPrice": 100, "markets": [m.name for m in comps[:2]]})
+            try:
+                idx._add_markets([comps[0], comps[2]])
+                g.require(False, "C17.duplicate-component-accepted")
+            except ValueError:
+                pass
+            g.require(len(idx.get_components()) == 2 and idx.get_components()[0] is comps[0] and
+                      idx.get_components()[1] is comps[1], "C17.refused-batch-changed-the-components",
+                      "a refused list of further components changed the set of components")
+            idx._add_markets([comps[2]])
+        else:
+            idx.setup({"tickSize": 1, "marketPrice": 100, "markets": [m.name for m in comps]})
         sim._add_market(idx)
         if case.get("reassign"):
             shares = list(case["reassign"])
@@ -306,13 +320,26 @@ class IndexInRun(Harness):
                 g.require(aeq(idx.get_index(t) * tot, wp), "C17.index!=weighted-average-of-market-prices")
 
 
+from pams.events import EventABC as _EventABC, EventHook as _EventHook
+
+
+class FlipSide(_EventABC):
+    """user event rewriting the side of every pending order (a before-order hook may alter the order)."""
+
+    def hook_registration(self):
+        return [_EventHook(event=self, hook_type="order", is_before=True)]
+
+    def hooked_before_order(self, simulator, order):
+        order.is_buy = not order.is_buy
+
+
 class TickRoundingInRun(Harness):
     name = "TickRoundingInRun"
     title = "orders sent through the real SequentialRunner to markets with different tick sizes: each on its own market's grid"
     what_symbolic = "the submitted prices (reals in (0,100]), sides, which market each item of a submission goes to, activation order"
     nontrivial_event = "an off-grid price was moved"
     bounds = {"quick": "2 markets with ticks 1 and 1/4 (and 1/4 and 1), one step without matching, one agent handing in "
-                       "2 limit orders in one consultation",
+                       "2 limit orders in one consultation; one case with a user event rewriting the side before acceptance",
               "thorough": "same"}
     reach = ("nontrivial", "two-markets-in-one-submission")
     stubs = TickRounding.stubs
@@ -320,18 +347,23 @@ class TickRoundingInRun(Harness):
     agreement_runs = 4
 
     def cases(self, tier):
-        return [{"ticks": [1, 0.25]}, {"ticks": [0.25, 1]}]
+        return [{"ticks": [1, 0.25]}, {"ticks": [0.25, 1]}, {"ticks": [1, 0.25], "flip": True}]
 
     def run(self, g, case):
         markets = {f"M{i}": {"class": "Market", "tickSize": t, "marketPrice": 50} for i, t in enumerate(case["ticks"])}
-        st = rn.base_settings(n_agents=1, sessions=[rn.session(0, 1, True, False, maxNormalOrders=1)], markets=markets)
+        sess = rn.session(0, 1, True, False, maxNormalOrders=1)
+        extra = None
+        if case.get("flip"):
+            sess["events"] = ["FLIP"]
+            extra = {"FLIP": {"class": "FlipSide"}}
+        st = rn.base_settings(n_agents=1, sessions=[sess], markets=markets, extra=extra)
         menu = {"acts": ["limit"], "vol_fixed": 1, "max_orders": 2, "real_prices": True, "price_lo": 0, "price_hi": 100}
         import pams.market as PM
         from .mathstub import ProxyMath
         old_math = PM.math
         PM.math = ProxyMath() if g.symbolic else old_math
         try:
-            ctx = rn.make_run(g, st, menu)
+            ctx = rn.make_run(g, st, menu, classes=(FlipSide,))
             ctx.runner._run()
         finally:
             PM.math = old_math
@@ -350,7 +382,7 @@ class TickRoundingInRun(Harness):
                       f"accepted price is not a multiple of the tick of market {lg.market_id}")
             on_grid = _is_multiple(g, p, t)
             g.require(sor(snot(on_grid), q == p), "C19.on-grid-price-changed")
-            if ask["is_buy"]:
+            if lg.is_buy:         # the side the order is accepted on (an event may have rewritten it)
                 g.require(sand(q <= p, p - q < t), "C19.more-aggressive", "buy price rounded upwards or by a tick or more")
             else:
                 g.require(sand(q >= p, q - p < t), "C19.more-aggressive", "sell price rounded downwards or by a tick or more")
